@@ -213,8 +213,39 @@ def _argument_layers(fn: ast.FunctionDef, param: str) -> list:
 
     def store(target, layers):
         env[ast.unparse(target)] = layers
+
+    # slice: only statements that (transitively) feed self._arguments matter here; what else set_arguments does (other state)
+    # is judged by the purity / state rules
+    def written(st):
+        out = set()
+        for n in ast.walk(st):
+            if isinstance(n, (ast.Assign, ast.AnnAssign, ast.AugAssign)):
+                for t in (n.targets if isinstance(n, ast.Assign) else [n.target]):
+                    base = t
+                    while isinstance(base, ast.Subscript):
+                        base = base.value
+                    out.add(ast.unparse(base))
+            if isinstance(n, ast.Call) and isinstance(n.func, ast.Attribute) and n.func.attr in (
+                    'update', 'pop', 'clear', 'setdefault', 'popitem', '__setitem__', '__delitem__'):
+                out.add(ast.unparse(n.func.value))
+            if isinstance(n, ast.Delete):
+                for t in n.targets:
+                    base = t
+                    while isinstance(base, ast.Subscript):
+                        base = base.value
+                    out.add(ast.unparse(base))
+        return out
+    relevant = {'self._arguments'}
+    for _ in range(4):
+        for st in fn.body:
+            if written(st) & relevant:
+                for n in ast.walk(st):
+                    if isinstance(n, ast.Name) and isinstance(n.ctx, ast.Load) and n.id not in ('self', param):
+                        relevant.add(n.id)
     for st in fn.body:
         if isinstance(st, ast.Expr) and isinstance(st.value, ast.Constant):
+            continue
+        if not (written(st) & relevant):
             continue
         if isinstance(st, (ast.Assign, ast.AnnAssign)):
             if isinstance(st, ast.AnnAssign) and st.value is None:
@@ -420,6 +451,12 @@ def run(run: Run):
     run.rule('C04.R5', 'every cell reference in emitted code is minted by the context for a registered member (shared with C03.R1)')
     borrow(run, 'C04.R5', c03.r1, src, get_grammar(src), get_emission(src), get_callgraph(src))
     run.floor('C04.R5', 10)
+    from . import c08
+    run.rule('C04.R6', 'no runtime method keeps computed values or other state between queries (shared with C08.R1/R4): an override '
+                       'always reaches every dependent cell')
+    borrow(run, 'C04.R6', c08.r1, src, rt, get_callgraph(src))
+    borrow(run, 'C04.R6', c08.r4, src, rt)
+    run.floor('C04.R6', 50)
     from .common import check_per_instance_state
     run.rule('C04.R4', 'overrides are per instance: no class-level mutable state is changed in place or handed out')
     run.guard('C04.R4', check_per_instance_state, run, 'C04.R4', get_runtime(get_source()))
